@@ -815,41 +815,38 @@ func (cx *c03ctx) exec(line string) {
 			cx.merges = rep
 		}
 	case "gm":
+		// GetMergeCells is an observation: it reports the normalised ranges of a copy of the list and leaves
+		// the worksheet (stored merge list included) as it was
 		ps := cx.watch()
 		before := cx.observe(ps)
+		d0 := cx.dump()
 		var got []xl.MergeCell
-		viaHook := cx.unstable
-		var st string
-		if viaHook {
-			st = c03call(func() error { return xl.VerifC03MergeOverlap(cx.f, c03Sheet) })
-			r.Stat("gm:via-hook")
-		} else {
-			st = c03call(func() error { var e error; got, e = cx.f.GetMergeCells(c03Sheet); return e })
-			r.Stat("gm:via-api")
+		st := c03call(func() error { var e error; got, e = cx.f.GetMergeCells(c03Sheet); return e })
+		var api []string
+		var rep [][4]int
+		for _, m := range got {
+			api = append(api, m[0])
+			if q, err := xl.VerifRangeRefToCoordinates(m[0]); err == nil && len(q) == 4 {
+				rep = append(rep, [4]int{q[0], q[1], q[2], q[3]})
+			}
+		}
+		if st == "ok" {
+			st = "gm " + strings.Join(api, ";")
 		}
 		res := withDump(st)
 		ln := emit(line, res)
-		refs, rep := c03dumpMerges(res)
-		cx.frameMerges(ln, ps, before, cx.observe(ps), rep, "gm")
-		cx.frameStyles(ln, ps, "gm")
-		if st == "ok" && !viaHook {
-			var api []string
-			for _, m := range got {
-				api = append(api, m[0])
-			}
-			if strings.Join(api, ";") != strings.Join(refs, ";") {
-				r.Fail("gm:api-vs-dump", fmt.Sprintf("GetMergeCells reports %v, internal list %v", api, refs), ln, cx.replay())
-			}
+		if d1 := cx.dump(); d1 != d0 {
+			r.Fail("getter:gm-changes-worksheet", "GetMergeCells changed the stored worksheet (grid or merge list)", ln, cx.replay())
+		}
+		cx.frameWrite(ln, ps, before, nil, "gm")
+		if strings.HasPrefix(st, "gm ") {
 			for _, m := range got {
 				want, _ := cx.f.GetCellValue(c03Sheet, m.GetStartAxis())
 				if m.GetCellValue() != want {
 					r.Fail("gm:value", fmt.Sprintf("GetMergeCells value of %s is %q, anchor reads %q", m[0], m.GetCellValue(), want), ln, cx.replay())
 				}
 			}
-		}
-		if st == "ok" {
 			cx.checkReported(ln, rep, nil)
-			cx.merges = rep
 		}
 	case "seq":
 		sp, c, ro, ok := c03decode(w[2])
